@@ -64,44 +64,49 @@ def admits(a):
     return a["E"] or (a["X"] and not a["C"]) or ((not a["X"]) and a["C"])
 
 
+def loop_guard(F, r, f, loop_field, effect_pred, tag, code_param):
+    code_pred = lambda e: e == ("param", code_param)
+    canon = guard_canon(F, code_pred)
+    loops = [lp for lp in for_loops(f) if mentions_field(lp.source, loop_field, "action::Action")]
+    if len(loops) != 1:
+        r.ob("guard:%s:loop" % tag, False, f.site, "%d loops over self.%s" % (len(loops), loop_field))
+        return
+    lp = loops[0]
+    s = Sym(f, copies=True)
+    rows = 0
+    bad = []
+    for p in lp.iteration_paths(s):
+        assign, other = path_assignment(p, canon)
+        eff = any(effect_pred(e) for e in p.events)
+        for full in consistent_assignments(assign, ["E", "X", "C"]):
+            if not consistent_with(other, full, canon):
+                continue
+            rows += 1
+            if eff != admits(full):
+                bad.append("E=%d X=%d C=%d -> %s (reference %s)" % (full["E"], full["X"], full["C"], "applied" if eff else "skipped", "applied" if admits(full) else "skipped"))
+    r.ob("guard:%s" % tag, not bad and rows >= 5, f.loc(lp.line),
+         "effect <=> codes.is_empty() || (exclude && !contains) || (!exclude && contains) on %d rows" % rows if not bad else "; ".join(sorted(set(bad))[:4]),
+         data={"deviations": sorted(set(bad))})
+
+
+INS_APPLIED = lambda e: e[0] == "call" and e[1].endswith("LinkedHashSet::insert") and mentions_field(e[2][0], "rules_applied", "action::Action")
+PUSH_HEADER_FILTER = lambda e: e[0] == "call" and e[1] == "std::vec::Vec::push" and mentions_field(e[2][1], "filter", "action::HeaderFilterAction")
+
+
 def r05_1(ctx):
     F = ctx.facts
-
-    def loop_guard(r, f, loop_field, effect_pred, tag, code_param):
-        code_pred = lambda e: e == ("param", code_param)
-        canon = guard_canon(F, code_pred)
-        loops = [lp for lp in for_loops(f) if mentions_field(lp.source, loop_field, "action::Action")]
-        if len(loops) != 1:
-            r.ob("guard:%s:loop" % tag, False, f.site, "%d loops over self.%s" % (len(loops), loop_field))
-            return
-        lp = loops[0]
-        s = Sym(f, copies=True)
-        rows = 0
-        bad = []
-        for p in lp.iteration_paths(s):
-            assign, other = path_assignment(p, canon)
-            eff = any(effect_pred(e) for e in p.events)
-            for full in consistent_assignments(assign, ["E", "X", "C"]):
-                if not consistent_with(other, full, canon):
-                    continue
-                rows += 1
-                if eff != admits(full):
-                    bad.append("E=%d X=%d C=%d -> %s (reference %s)" % (full["E"], full["X"], full["C"], "applied" if eff else "skipped", "applied" if admits(full) else "skipped"))
-        r.ob("guard:%s" % tag, not bad and rows >= 5, f.loc(lp.line),
-             "effect <=> codes.is_empty() || (exclude && !contains) || (!exclude && contains) on %d rows" % rows if not bad else "; ".join(sorted(set(bad))[:4]),
-             data={"deviations": sorted(set(bad))})
 
     def body(r):
         f = F.fn("action::Action::filter_headers")
         r.analysed(f)
         ins_applied = lambda e: e[0] == "call" and e[1].endswith("LinkedHashSet::insert") and mentions_field(e[2][0], "rules_applied", "action::Action")
-        loop_guard(r, f, "rule_traces", ins_applied, "filter_headers:applied-rules", 3)
+        loop_guard(F, r, f, "rule_traces", ins_applied, "filter_headers:applied-rules", 3)
         push_filter = lambda e: e[0] == "call" and e[1] == "std::vec::Vec::push" and mentions_field(e[2][1], "filter", "action::HeaderFilterAction")
-        loop_guard(r, f, "header_filters", push_filter, "filter_headers:header-filters", 3)
+        loop_guard(F, r, f, "header_filters", push_filter, "filter_headers:header-filters", 3)
         g = F.fn("action::Action::create_filter_body")
         r.analysed(g)
         push_bfilter = lambda e: e[0] == "call" and e[1] == "std::vec::Vec::push" and mentions_field(e[2][1], "filter", "action::BodyFilterAction")
-        loop_guard(r, g, "body_filters", push_bfilter, "create_filter_body:body-filters", 2)
+        loop_guard(F, r, g, "body_filters", push_bfilter, "create_filter_body:body-filters", 2)
         # in the two filter loops the applied-rule insertion is governed by the same row as the filter
         for (fn, fld, pf, tag) in ((f, "header_filters", push_filter, "filter_headers"), (g, "body_filters", push_bfilter, "create_filter_body")):
             lp = [x for x in for_loops(fn) if mentions_field(x.source, fld, "action::Action")]
@@ -471,19 +476,18 @@ def r05_5(ctx):
         n = 0
         for (has, ovr, gt), sk in rows.items():
             for skipped in sk:
-                n += 1
                 if not has:
-                    want = False
-                elif ovr == "false":
-                    want = True
-                elif ovr == "true":
-                    want = False
-                elif ovr == "none":
-                    want = bool(gt)
-                else:
-                    want = None
-                if want is not None and skipped != want:
-                    bad.append("sampling=%s override=%s random>percent=%s -> %s (reference %s)" % (has, ovr, gt, "skipped" if skipped else "applied", "skipped" if want else "applied"))
+                    n += 1
+                    if skipped:
+                        bad.append("no sampling configured but the rule is skipped")
+                    continue
+                # a path that did not look at the override / the draw decides for all their values
+                for o in ([ovr] if ovr not in (None, "some") else ["none", "false", "true"]):
+                    for g in ([gt] if gt is not None else [True, False]):
+                        n += 1
+                        want = True if o == "false" else False if o == "true" else bool(g)
+                        if skipped != want:
+                            bad.append("sampling=%s override=%s random>percent=%s -> %s (reference %s)%s" % (has, o, g, "skipped" if skipped else "applied", "skipped" if want else "applied", "" if ovr is not None else " [the override is not consulted on this path]"))
         r.ob("sampling:table", not bad and n >= 4, f.site, "skip <=> Some(false) || (None && random > percent) on %d rows" % n if not bad else "; ".join(sorted(set(bad))[:4]))
         # constants: (random % 100) + 1 > clamp(sampling, 0, 100)
         ok = False
